@@ -29,7 +29,8 @@ ASSUMPTIONS = ["'GrammarIsRecursive is raised exactly when ...' is a theorem at 
                "alternatives when the model sees them (protocol `!` / field AX=); the harness expands AnyTokenExcept itself: the "
                "SET of tokens is the reference's (token groups - synonym sources + synonym and keyword targets), only the order "
                "among them (iteration order of a Python set) is read from the code; the parser is built from the original "
-               "None / AnyTokenExcept objects; terminal names containing `__` are not generated"]
+               "None / AnyTokenExcept objects; terminal names containing `__` are not generated; the names listed in AnyTokenExcept are tokens of the parser's "
+               "tokenizer (others are a GrammarError of the expansion, which the model does not see)"]
 BUDGET = 1000000          # line events of the constructor
 PARSE_BUDGET = 30000000    # backstop only; the observable for a run-away parse is the stack bound
 
